@@ -1,8 +1,149 @@
 /-
-  C08 — property theorems (see DESIGN.md §6 C08).  Helper lemmas live in Proofs/.
+  C08 — tail calls use no host stack: tail-recursive loops run at any length (see DESIGN.md §6 C08).
+
+  In the model `d` is the number of live `EVAL` activations (the host stack depth in EVAL frames): a
+  `continue` of the TCO loop is `evalLoop … d` with the same `d`, a recursive Go call of `EVAL` is
+  `eval … (d+1)`.  The builtin `depth!` records the current `d` in `State.marks`.
+  The tail laws below exhibit, for every tail construct, the continuation `evalLoop … d` at the SAME depth,
+  while every non-tail sub-evaluation is an `eval … (d+1)` (inside `evalList`, `letBinds`, the `if`
+  condition).  Side conditions: no debugger (with a stepper installed the Go code deliberately turns the
+  `continue` into a recursive call), context not cancelled at the poll (`Live st`), the special-form symbol not
+  shadowed by a macro.  Property theorems only; proofs in Proofs/EvalTail.lean.
 -/
 import LispModel.Eval
+import LispModel.Proofs.EvalTail
 namespace LispModel.Props.C08
-open LispModel
+open LispModel LispModel.Core LispModel.Proofs.EvalCancel LispModel.Proofs.EvalTry LispModel.Proofs.EvalTail
+
+/-- last form of a `do` body -/
+theorem tail_do (st : State) (hl : Live st) (hst : st.stepper = none) (env : Nat) (hm : NotMacro st env "do")
+    (F : Nat) (p : Option Pos) (ops : List Val) (pos : Option Pos) (d : Nat) (vs : List Val) (s1 : State)
+    (hs1 : s1.stepper = none) (hne : ops ≠ [])
+    (h : evalList F (tick st) env ops.dropLast d = (.ok vs, s1)) :
+    evalLoop (F + 2) st env (.list (.sym "do" p :: ops) pos) d =
+      evalLoop (F + 1) s1 env (ops.getLast?.getD .nil) d :=
+  Proofs.EvalTail.tail_do hl hm F p ops pos d vs s1 hs1 hne h hst
+
+/-- last form of a `let` body (evaluated in the let scope) -/
+theorem tail_let (st : State) (hl : Live st) (hst : st.stepper = none) (env : Nat) (hm : NotMacro st env "let")
+    (F : Nat) (p : Option Pos) (a1 : Val) (body : List Val) (pos : Option Pos) (d : Nat) (arr : List Val)
+    (ha : seqOf? a1 = some arr) (heven : arr.length % 2 = 0) (hne : body ≠ []) (u : Val) (s1 : State)
+    (vs : List Val) (s2 : State) (hs2 : s2.stepper = none)
+    (hb : letBinds (F + 1) ((tick st).newScope env []).1 ((tick st).newScope env []).2 arr a1 d = (.ok u, s1))
+    (hf : evalList F s1 ((tick st).newScope env []).2 body.dropLast d = (.ok vs, s2)) :
+    evalLoop (F + 2) st env (.list (.sym "let" p :: a1 :: body) pos) d =
+      evalLoop (F + 1) s2 ((tick st).newScope env []).2 (body.getLast?.getD .nil) d :=
+  Proofs.EvalTail.tail_let hl hm hst F p a1 body pos d arr ha heven hne u s1 vs s2 hs2 hb hf
+
+/-- the selected branch of `if`: then-branch -/
+theorem tail_if_then (st : State) (hl : Live st) (env : Nat) (hm : NotMacro st env "if") (F : Nat) (p : Option Pos)
+    (c a : Val) (rest : List Val) (pos : Option Pos) (d : Nat) (v : Val) (s1 : State) (hs1 : s1.stepper = none)
+    (h : eval (F + 1) (tick st) env c (d + 1) = (.ok v, s1)) (hv : truthy v = true) :
+    evalLoop (F + 2) st env (.list (.sym "if" p :: c :: a :: rest) pos) d = evalLoop (F + 1) s1 env a d :=
+  Proofs.EvalTail.tail_if_then hl hm F p c a rest pos d v s1 hs1 h hv
+
+/-- the selected branch of `if`: else-branch -/
+theorem tail_if_else (st : State) (hl : Live st) (env : Nat) (hm : NotMacro st env "if") (F : Nat) (p : Option Pos)
+    (c a b : Val) (rest : List Val) (pos : Option Pos) (d : Nat) (v : Val) (s1 : State) (hs1 : s1.stepper = none)
+    (h : eval (F + 1) (tick st) env c (d + 1) = (.ok v, s1)) (hv : truthy v = false) :
+    evalLoop (F + 2) st env (.list (.sym "if" p :: c :: a :: b :: rest) pos) d = evalLoop (F + 1) s1 env b d :=
+  Proofs.EvalTail.tail_if_else hl hm F p c a b rest pos d v s1 hs1 h hv
+
+/-- a call of a closure in tail position replaces `(ast, env)` by (body, new scope) and continues the loop at
+    depth `d`: last form of a `fn` body, mutual recursion included (`fenv`, `body` are the callee's) -/
+theorem tail_closure_call (st : State) (hl : Live st) (env : Nat) (s : String) (hm : NotMacro st env s)
+    (hsf : s ∉ specialForms) (F : Nat) (p : Option Pos) (ops : List Val) (pos : Option Pos) (d : Nat)
+    (params body : Val) (fenv : Nat) (m : Bool) (fp : Option Pos) (args : List Val) (s1 : State)
+    (hs1 : s1.stepper = none)
+    (h : evalList (F + 1) (tick st) env (.sym s p :: ops) d = (.ok (.fn params body fenv m fp :: args), s1))
+    (data : List (String × Val)) (hb : bindParams params args = .ok data) :
+    evalLoop (F + 2) st env (.list (.sym s p :: ops) pos) d =
+      evalLoop (F + 1) (s1.newScope fenv data).1 (s1.newScope fenv data).2 body d :=
+  Proofs.EvalTail.tail_closure_call hl hm hsf F p ops pos d params body fenv m fp args s1 hs1 h data hb
+
+/-- `quasiquote` continues with its expansion at depth `d` -/
+theorem tail_quasiquote (st : State) (hl : Live st) (hst : st.stepper = none) (env : Nat)
+    (hm : NotMacro st env "quasiquote") (F : Nat) (p : Option Pos) (x : Val) (rest : List Val) (pos : Option Pos)
+    (d : Nat) :
+    evalLoop (F + 2) st env (.list (.sym "quasiquote" p :: x :: rest) pos) d =
+      evalLoop (F + 1) (tick st) env (quasiquote x) d :=
+  Proofs.EvalTail.tail_quasiquote hl hm hst F p x rest pos d
+
+/-- macros such as `cond`, `and`, `or`: after `macroexpand` the same loop iteration handles the expansion at
+    depth `d` (`afterExpand` is the special-form dispatch of that iteration) -/
+theorem tail_macro_expansion (st : State) (hl : Live st) (F env : Nat) (xs : List Val) (pos : Option Pos) (d : Nat)
+    (ast' : Val) (s1 : State) (h : macroexpand F (tick st) env (.list xs pos) d = (.ok ast', s1)) :
+    evalLoop (F + 1) st env (.list xs pos) d = afterExpand F s1 env ast' d :=
+  Proofs.EvalTail.tail_macro_expansion hl F env xs pos d ast' s1 h
+
+/-- whereas every non-tail sub-evaluation is a recursive `EVAL` at depth `d + 1`: the elements of a call
+    (`evalList`, also used by `do` for its non-last forms), the init forms of `let`, the condition of `if`,
+    the value of `def` all go through `eval … (d + 1)` (shown here: an element's result is the loop's
+    result at `d + 1` — no stepper —, and `depth!` records exactly the `d` it is called at). -/
+theorem non_tail_is_deeper (F : Nat) (st : State) (hs : st.stepper = none) (env : Nat) (x : Val) (xs : List Val)
+    (d : Nat) :
+    eval (F + 1) st env x (d + 1) = evalLoop F st env x (d + 1) ∧
+    (∀ v s1, eval (F + 1) st env x (d + 1) = (.ok v, s1) →
+      evalList (F + 2) st env (x :: xs) d =
+        match evalList (F + 1) s1 env xs d with | (.ok vs, s) => (.ok (v :: vs), s) | r => r) ∧
+    callBuiltin (F + 1) st "depth!" [] d = (.ok .nil, { st with marks := d :: st.marks }) :=
+  ⟨eval_noStepper hs F env x (d + 1), fun _ _ h => evalList_cons_ok h xs, callBuiltin_depth F st d⟩
+
+/-- **The loop.**  `countdown := (fn (n) (do (depth!) (if (< n 1) :done (countdown (- n 1)))))` defined in a
+    scope `fenv` (`CdEnv countdownFam st fenv`: the closure is bound there, the builtins `depth!`, `<`, `-` are
+    visible, `do`/`if` are not shadowed by macros, the scope store is well formed).  Evaluating `(countdown k)`
+    by a loop at depth `d` returns `:done` and records exactly `k + 1` marks, ALL equal to `d + 1` — for EVERY
+    `k`, with fuel linear in `k`: the host stack depth observed at the n-th iteration is the same for every n,
+    so the loop completes at any length. -/
+theorem loop_depth_constant (st : State) (hs : st.stepper = none) (hc : st.cancelAt = none) (fenv : Nat)
+    (he : CdEnv countdownFam st fenv) (k : Nat) (F : Nat) (hF : 4 * k + 40 ≤ F) (d : Nat) :
+    ∃ st', evalLoop F st fenv (.list [.sym "countdown" none, .int k] none) d = (.ok (Val.kw "done"), st') ∧
+      st'.marks = List.replicate (k + 1) (d + 1) ++ st.marks :=
+  fam_loop countdownFam ⟨hs, hc⟩ he true k hF d
+
+/-- …including mutual recursion between functions:
+    `ping := (fn (n) (do (depth!) (if (< n 1) :done (pong (- n 1)))))`,
+    `pong := (fn (n) (do (depth!) (if (< n 1) :done (ping (- n 1)))))`. -/
+theorem mutual_loop_depth_constant (st : State) (hs : st.stepper = none) (hc : st.cancelAt = none) (fenv : Nat)
+    (he : CdEnv pingPongFam st fenv) (k : Nat) (F : Nat) (hF : 4 * k + 40 ≤ F) (d : Nat) :
+    ∃ st', evalLoop F st fenv (.list [.sym "ping" none, .int k] none) d = (.ok (Val.kw "done"), st') ∧
+      st'.marks = List.replicate (k + 1) (d + 1) ++ st.marks :=
+  fam_loop pingPongFam ⟨hs, hc⟩ he true k hF d
+
+/-- the hypotheses are satisfiable: both families defined in the root scope of `initState` -/
+theorem loop_hypotheses_satisfiable :
+    CdEnv countdownFam countdownState 0 ∧ countdownState.stepper = none ∧ countdownState.cancelAt = none ∧
+    CdEnv pingPongFam pingPongState 0 ∧ pingPongState.stepper = none ∧ pingPongState.cancelAt = none :=
+  ⟨countdown_env, rfl, rfl, pingPong_env, rfl, rfl⟩
+
+/-! ### non-vacuity: the real programs on `initState` (kernel evaluation) -/
+
+private def sy (s : String) : Val := .sym s none
+private def ls (xs : List Val) : Val := .list xs none
+private def loopFn (callee : String) : Val :=
+  ls [sy "fn", ls [sy "n"], ls [sy "do", ls [sy "depth!"],
+    ls [sy "if", ls [sy "<", sy "n", .int 1], Val.kw "done", ls [sy callee, ls [sy "-", sy "n", .int 1]]]]]
+
+/-- `(do (def countdown (fn (n) …)) (countdown 25))`: 26 marks, all equal -/
+example :
+    let prog := ls [sy "do", ls [sy "def", sy "countdown", loopFn "countdown"], ls [sy "countdown", .int 25]]
+    let r := eval 400 initState 0 prog 0
+    (r.2.marks.length == 26 && r.2.marks.all (· == 1) && (r.1 matches .ok (.str _))) = true := by
+  decide +kernel
+
+/-- the mutual pair, 20 iterations -/
+example :
+    let prog := ls [sy "do", ls [sy "def", sy "ping", loopFn "pong"], ls [sy "def", sy "pong", loopFn "ping"],
+      ls [sy "ping", .int 19]]
+    let r := eval 400 initState 0 prog 0
+    (r.2.marks.length == 20 && r.2.marks.all (· == 1)) = true := by decide +kernel
+
+/-- a NON-tail recursion for contrast: `(def f (fn (n) (do (depth!) (if (< n 1) 0 (+ 1 (f (- n 1)))))))`,
+    `(f 3)`: the marks grow with the recursion depth -/
+example :
+    let f := ls [sy "fn", ls [sy "n"], ls [sy "do", ls [sy "depth!"],
+      ls [sy "if", ls [sy "<", sy "n", .int 1], .int 0, ls [sy "+", .int 1, ls [sy "f", ls [sy "-", sy "n", .int 1]]]]]]
+    let r := eval 400 initState 0 (ls [sy "do", ls [sy "def", sy "f", f], ls [sy "f", .int 3]]) 0
+    (r.2.marks == [4, 3, 2, 1]) = true := by decide +kernel
 
 end LispModel.Props.C08
